@@ -14,6 +14,7 @@ import (
 
 	"verifharness/internal/drive"
 	"verifharness/internal/vstore"
+	"verifharness/internal/vt"
 )
 
 // tcfg is one limiter configuration.
@@ -69,6 +70,10 @@ type tstep struct {
 	Max   int    `json:"max,omitempty"` // X-Max header (MaxFunc configurations); 0 = absent
 	Mode  string `json:"handler"`       // what the protected handler does, see handle
 	Delay int    `json:"handler_sleep_s,omitempty"`
+	// Async: the request runs in its own goroutine and its handler sleeps AsyncMs of virtual time
+	// while the history goes on sending requests (overlap family). The history does not wait.
+	Async   bool `json:"async,omitempty"`
+	AsyncMs int  `json:"async_handler_sleep_ms,omitempty"`
 }
 
 // tobs is what was observed for one request.
@@ -84,6 +89,8 @@ type tobs struct {
 	Limit      string `json:"limit,omitempty"`
 	Remaining  string `json:"remaining,omitempty"`
 	Reset      string `json:"reset,omitempty"`
+	Seq        int64  `json:"-"` // execution order: stamped when the request is sent ...
+	EndSeq     int64  `json:"-"` // ... and when its response has arrived
 	MaxCalls   int    `json:"-"`
 	KeyCalls   int    `json:"-"`
 	// logical clock of the concurrent families
@@ -198,6 +205,9 @@ func newRig(cfg tcfg) *rig {
 		if rg.yield != nil {
 			rg.yield("handler.entry")
 		}
+		if n, err := strconv.Atoi(c.Get("X-DelayMs")); err == nil && n > 0 {
+			time.Sleep(time.Duration(n) * time.Millisecond)
+		}
 		if n, err := strconv.Atoi(c.Get("X-Delay")); err == nil && n > 0 {
 			time.Sleep(time.Duration(n) * time.Second)
 		}
@@ -265,6 +275,9 @@ func (rg *rig) request(idx int, key string, st tstep) *drive.Req {
 	if st.Max > 0 {
 		rq.Hdr = append(rq.Hdr, drive.H{K: "X-Max", V: strconv.Itoa(st.Max)})
 	}
+	if st.Async && st.AsyncMs > 0 {
+		rq.Hdr = append(rq.Hdr, drive.H{K: "X-DelayMs", V: strconv.Itoa(st.AsyncMs)})
+	}
 	if st.Delay > 0 {
 		rq.Hdr = append(rq.Hdr, drive.H{K: "X-Delay", V: strconv.Itoa(st.Delay)})
 	}
@@ -295,6 +308,7 @@ func (rg *rig) exec(caseID string, steps []tstep, only int) ([]tobs, string) {
 	rg.mu.Unlock()
 	off := 0
 	clockErr := ""
+	var wg sync.WaitGroup
 	for i, st := range steps {
 		off += st.Adv
 		if st.Align && off%1000 != 0 {
@@ -315,11 +329,29 @@ func (rg *rig) exec(caseID string, steps []tstep, only int) ([]tobs, string) {
 		if uint64(utils.Timestamp()) != o.TS {
 			clockErr = fmt.Sprintf("step %d: utils.Timestamp=%d, virtual clock=%d", i, utils.Timestamp(), o.TS)
 		}
-		resp := rg.d.Do(rg.request(i, keys[st.Key], st))
-		o.TEnd = time.Now().UnixNano()
-		o.TSEnd = uint64(o.TEnd / 1e9)
-		o.fill(resp)
+		o.Seq = rg.tick()
+		rq := rg.request(i, keys[st.Key], st)
+		do := func() {
+			resp := rg.d.Do(rq)
+			o.TEnd = time.Now().UnixNano()
+			o.TSEnd = uint64(o.TEnd / 1e9)
+			o.EndSeq = rg.tick()
+			o.fill(resp)
+		}
+		if !st.Async {
+			do()
+			continue
+		}
+		// The request gets a goroutine of its own; the barrier returns when it has been answered
+		// (429) or its handler sleeps, so the order of events stays the order of the stamps.
+		wg.Add(1)
+		go func() {
+			defer wg.Done()
+			do()
+		}()
+		vt.Barrier()
 	}
+	wg.Wait() // virtual time runs on until the last slow handler has returned
 	return obs, clockErr
 }
 
@@ -357,12 +389,18 @@ func describeSteps(steps []tstep, obs []tobs) []string {
 			fmt.Fprintf(&sb, " MaxFunc=%d", st.Max)
 		}
 		fmt.Fprintf(&sb, " handler=%s", st.Mode)
+		if st.Async {
+			fmt.Fprintf(&sb, " ASYNC sleeps %dms", st.AsyncMs)
+		}
 		if st.Delay > 0 {
 			fmt.Fprintf(&sb, " sleeps %ds", st.Delay)
 		}
 		if i < len(obs) && obs[i].Ran {
 			o := obs[i]
 			fmt.Fprintf(&sb, " => sent at %.3fs (coarse clock %d) entered=%d status=%d", float64(o.T-t0)/1e9, (o.T-t0)/1e9, o.Entered, o.Status)
+			if st.Async {
+				fmt.Fprintf(&sb, " (answered at %.3fs)", float64(o.TEnd-t0)/1e9)
+			}
 			if o.RetryAfter != "" {
 				fmt.Fprintf(&sb, " Retry-After=%s", o.RetryAfter)
 			}
